@@ -47,3 +47,23 @@ Lemma repaired_same_histories :
   map view (run pool_c NewState hist_c) =
     [ ([], 0, Ok [0]); ([0], 0, Ok [1]); ([], 31, Ok [1]); ([], 31, Ok [1]) ]%N.
 Proof. vm_compute. repeat split; reflexivity. Qed.
+
+(* N1 (repaired in /repo 34afac6): the pinned scan appends once per descriptor already stored for the signal
+   time, so the list doubles with every further descriptor at that time; the repaired one stores each once *)
+Definition pool_d : list desc :=
+  map (fun i => mk (N.of_nat i) 0x17 (N.of_nat i + 1) true 5000 0 0 false 0 0 None) (seq 0 7).
+Definition hist_d : list call := map CProcess (seq 0 7).
+
+Fixpoint exec_pinned (pool : list desc) (s : state) (cs : list call) : state :=
+  match cs with
+  | [] => s
+  | c :: t => match StatePinned.step pool s c with Ok (s', _) => exec_pinned pool s' t | _ => s end
+  end.
+
+Definition ring_sizes (s : state) : list nat :=
+  map (fun e => match e with Some e => length (edescs e) | None => 0 end) (received s).
+
+Lemma pinned_scan_doubles :
+  ring_sizes (exec_pinned pool_d NewState hist_d) = [64; 0; 0; 0; 0; 0; 0; 0; 0; 0] /\
+  ring_sizes (match exec pool_d NewState hist_d with Ok s => s | _ => NewState end) = [7; 0; 0; 0; 0; 0; 0; 0; 0; 0].
+Proof. vm_compute. split; reflexivity. Qed.
